@@ -4,6 +4,7 @@ import (
 	"fmt"
 	"go/token"
 	"go/types"
+	"sort"
 	"strings"
 
 	"golang.org/x/tools/go/ssa"
@@ -125,6 +126,8 @@ func runC12(c *core.Ctx) {
 	c.RuleDoc("R12.8", "the final wait re-checks the error channel when the writers' completion wins the select")
 	c.RuleDoc("R12.7", "directory entries are created in the foreground")
 	c.RuleDoc("R12.14", "name relations in package tar are tested on element boundaries")
+	c.RuleDoc("R12.16", "a by-name method of the default destination saves no record it looked up under another name")
+	c.RuleDoc("R12.17", "destination files are created with O_TRUNC")
 	c.RuleDoc("R12.15", "destination files are created with the entry's own mode")
 	c.RuleDoc("R12.13", "a PAX global header is not materialised as an entry")
 	c.RuleDoc("R12.12", "the buffer pool never provisions more buffers than its channel holds (unpacking finishes)")
@@ -149,7 +152,8 @@ func runC12(c *core.Ctx) {
 		r12EveryEntryProcessed(c, p, sh)
 		r12PoolBound(c, p, "R12.12")
 		r12SkipsGlobalHeader(c, p, sh)
-		boundaryTests(c, p, "R12.14", "tar")
+		boundaryTests(c, p, "R12.14", "tar", "mem")
+		r12OpenWritesOnlyItsName(c, p, "R12.16")
 		r12CreatesWithHeaderMode(c, p, sh)
 		if fileT := p.Named("keyvalue", "file"); fileT != nil {
 			r02NoAdopt(c, p, fileT, "R12.11")
@@ -170,6 +174,8 @@ func runC12(c *core.Ctx) {
 	c.Floor("R12.12", 1)
 	c.Floor("R12.13", 1)
 	c.Floor("R12.15", 1)
+	c.Floor("R12.16", 3)
+	c.Floor("R12.17", 1)
 	c.Floor("R12.11", 3)
 }
 
@@ -1086,6 +1092,12 @@ func r12CreatesWithHeaderMode(c *core.Ctx, p *load.Program, sh *tarShape) {
 					return
 				}
 				n++
+				// R12.17 / R13.16: a destination file is created truncating — an archive may hold a name twice (tar -r),
+				// and the later, shorter entry must not keep the tail of the earlier one
+				if trunc, okT := flagConst(p, "FlagTruncate"); okT {
+					c.Check(k&trunc != 0, truncRule, fname(fn)+"|"+ord.next("creates-truncating"), p.Pos(cl.Pos()), "the destination is opened with O_TRUNC",
+						fmt.Sprintf("%s creates the destination file without O_TRUNC: where an archive holds a name twice (an archive appended to with tar -r) the later, shorter entry is written over the earlier one and keeps its tail", fname(fn)))
+				}
 				mc, ok := args[2].(*ssa.Call)
 				c.Check(ok && mc.Call.IsInvoke() && mc.Call.Method.Name() == "Mode", "R12.15", fname(fn)+"|"+ord.next("creates-with-the-entry-mode"), p.Pos(cl.Pos()), "the file is created with info.Mode()",
 					fmt.Sprintf("%s creates a destination file with a mode that is not the entry's info.Mode()", fname(fn)))
@@ -1094,5 +1106,67 @@ func r12CreatesWithHeaderMode(c *core.Ctx, p *load.Program, sh *tarShape) {
 	}
 	if n == 0 {
 		c.Hard("anchor: creation of destination files in package tar")
+	}
+}
+
+// truncRule is the rule id under which the O_TRUNC clause of r12CreatesWithHeaderMode reports (R12.17, R13.16 under C13).
+var truncRule = "R12.17"
+
+// r12OpenWritesOnlyItsName (R12.16 / R15.18): an exported by-name method of the key-value FS saves back no record that
+// it looked up under ANOTHER name than the one it was called with. Re-saving the parent record fetched at the start of
+// OpenFile ("its ModTime moves forward") writes a stale copy: tar's background writer creating d/f overwrites the mode
+// the reader's foreground Chmod(d) has just set, and the directory's final mode depends on the schedule.
+func r12OpenWritesOnlyItsName(c *core.Ctx, p *load.Program, rule string) {
+	sh := findKVShape(p)
+	if sh == nil || sh.saveFn == nil {
+		c.Hard("anchor: keyvalue.FS shape (save)")
+		return
+	}
+	var names []string
+	for n := range sh.methods {
+		names = append(names, n)
+	}
+	sort.Strings(names)
+	for _, mn := range names {
+		fn := sh.methods[mn]
+		if fn == nil || fn.Blocks == nil || fn.Object() == nil || !fn.Object().Exported() || len(fn.Params) < 2 || !isStr(fn.Params[1].Type()) {
+			continue
+		}
+		isNameParam := func(v ssa.Value) bool {
+			for _, q := range fn.Params[1:] {
+				if isStr(q.Type()) && v == ssa.Value(q) {
+					return true
+				}
+			}
+			return false
+		}
+		bad := ""
+		saves := 0
+		ssax.Instrs(fn, func(ins ssa.Instruction) {
+			cl, ok := ins.(*ssa.Call)
+			if !ok || ssax.StaticCallee(cl) != sh.saveFn || len(cl.Call.Args) == 0 {
+				return
+			}
+			saves++
+			base := cl.Call.Args[0]
+			if b, _, ok := ssax.FieldLoad(base); ok {
+				base = b
+			}
+			if ctor, ok := base.(*ssa.Call); ok && sh.ctorFns[ssax.StaticCallee(ctor)] {
+				return // a record built here
+			}
+			lp := sh.lookupPathOf(base, 0)
+			if lp == nil {
+				lp = sh.lookupPathOf(cl.Call.Args[0], 0)
+			}
+			if lp != nil && !isNameParam(lp) && bad == "" {
+				bad = p.Pos(cl.Pos())
+			}
+		})
+		if saves == 0 {
+			continue
+		}
+		c.Check(bad == "", rule, fname(fn)+"|saves-only-records-of-its-own-name", p.Pos(fn.Pos()), "every saved record was built here or looked up under the method's own name",
+			fmt.Sprintf("%s saves back, at %s, a record it looked up under another name than the one it was called with (the parent, say): the copy is as old as the look-up, so a change another goroutine made to that entry in between — a Chmod of the directory — is overwritten", fname(fn), bad))
 	}
 }
